@@ -13,7 +13,7 @@ RULE = ("tensors of rank 1-4 (shapes 2-3 per axis, every index-type pattern, 0-2
         "tensor/point/line/quadric x tensor/array/python and numpy scalars, left and right, operators and numpy ufuncs; transpose / T / "
         "tensor_product / expand_dims / copy. Also every __getitem__ and arithmetic call made by the repository's tests. "
         "Non-trivial = an index expression other than a single integer or an operand pairing with a non-scalar; distinct by digest."
-        " Arithmetic results must have numpy's result dtype, a buffer of their own and must leave the operands' bytes unchanged; the neutral scalars 1, 1.0, np.int64(1), 1+0j, 0, -1, True are part of the operand pairings; tensors whose free axis is not the leading one (results of indexing with None / an integer array after a tensor axis) are operands too; T and transpose() are read on every kind of library object; -p, np.negative(p) and (p-p)-p on points must be p*(-1) (directions reversed).")
+        " Arithmetic results must have numpy's result dtype, a buffer of their own and must leave the operands' bytes unchanged; the neutral scalars 1, 1.0, np.int64(1), 1+0j, 0, -1, True are part of the operand pairings; tensors whose free axis is not the leading one (results of indexing with None / an integer array after a tensor axis) are operands too; T and transpose() are read on every kind of library object; -p, np.negative(p) and (p-p)-p on points must be p*(-1) (directions reversed); leading scalar boolean indices (Python bool, numpy.bool_).")
 SHARDS = (8, 16)
 REQUIRED = ["getitem", "arith", "point_arith", "ufunc", "transpose", "expand_dims", "copy", "arith.operands"]
 ASSUMPTIONS = ["numpy indexing/ufunc semantics are the reference", "the structural index model is validated per case against numpy's result shape"]
